@@ -9,12 +9,16 @@ import PikaVerif.Lemmas.SemHold
 /-!
 # C08t — termination / bounded progress of the semaphore operations (follow-up of C08)
 
-`Props/C08.lean` states progress as "no stuck state".  This file strengthens it to termination:
+`Props/C08.lean` states progress as "no stuck state".  This file strengthens it to termination.
 
-* The model `PikaVerif.Sem` has **no stutter**: a failed attempt on the internal spinlock is not an
-  event of the model (`slAcq` is accepted only when the lock is free; the spinning thread's
-  `sl.lock` / `ag.yield` lines are dropped by the driver before the acceptor), so "terminates"
-  needs no "modulo stuttering" clause: every accepted event counts.
+**Stutter.**  The models `PikaVerif.Sem` / `PikaVerif.SSem` have **no stutter**: a failed attempt on
+the internal spinlock is not an event of the model (`slAcq` is accepted only when the lock is free;
+the spinning thread's `sl.lock` / `ag.yield` lines are dropped by the driver before the acceptor),
+so every accepted event is a real move and the bounds below count all of them.  For the real code
+they are bounds *modulo spinning on the internal lock*; a spinning episode ends after at most three
+events of the lock holder, which is never blocked (`C08t_lock_released_within_three`).
+
+**Counting / binary semaphore** (`Sem`):
 * `Sem.mu` is a natural-number measure on model states that strictly decreases with every accepted
   event other than the invocation of a new operation (`C08t_measure_decreases`).
 * A *program* gives each of the `n` threads a finite list of operations (`Sem.PSt`, `Sem.pstep`,
@@ -23,6 +27,15 @@ import PikaVerif.Lemmas.SemHold
   `release(k)`), every accepted log extends to a maximal one (`C08t_maximal_exists`), and in the
   final state of a maximal log every thread has finished its whole program except acquirers parked
   in `acquire` with `value = 0` (`C08t_final_state`).
+* If initial count + released permits cover the acquire-type operations — counting only releases
+  that are not sequenced behind an untimed acquire of their own thread — every maximal run ends with
+  all operations returned (`C08t_blocked_accounting`, `C08t_covered_all_return`; the example
+  `progBad` shows that the qualification is necessary).
+* One `release(k)` call run alone wakes exactly `min k (queued acquirers)` waiters in at most
+  `3 m + 5` events, and these, run alone, return `true` in `6 m` events (`C08t_release_wakes`).
+
+**Sliding semaphore** (`SSem`): the same statements (`C08t_sliding_*`); a `signal` costs `15 n + 9`
+because it notifies as many waiters as are queued (at most `n`, invariant `SSem.QLen`).
 -/
 namespace PikaVerif.C08t
 open PikaVerif PikaVerif.Sem PikaVerif.C08
